@@ -9,7 +9,8 @@ OP = "certvalidate"
 RULE = ("version-2 certificates built from freshly generated P-256 X.509 chains (depth 1..3; valid / expired / "
         "not-yet-valid), attestation keys, auth data, QE report bodies and quotes, with every single-point "
         "corruption class: a byte of any message / signature / key / auth data / custom data, re-parenting, "
-        "signature by another key, a non-P-256 certificate key, a wrong root; the link table given to the Lean "
+        "signature by another key, a non-P-256 certificate key, a wrong root, an element named like the root of trust "
+        "embedded in the file (with the verifier trusting another root); the link table given to the Lean "
         "model is computed independently (python-ecdsa for X.509 links, `cryptography` for the others — the "
         "code under test uses them the other way round).  non-trivial = the quote target has a path of at least "
         "three elements; distinct by hash of the canonical case")
@@ -89,7 +90,7 @@ def corrupt(rng, m, cert, k=None):
     import base64
     c = copy.deepcopy(cert)
     root = m.certs[0]
-    k = rng.randrange(10) if k is None else k
+    k = rng.randrange(11) if k is None else k
     e = rng.choice(c["elements"])
     if k in (0, 1, 6):
         e = rng.choice([x for x in c["elements"] if x["type"] != "x509_pem"])
@@ -129,6 +130,13 @@ def corrupt(rng, m, cert, k=None):
         for x in c["elements"]:
             if x["name"] == "cert%d" % i:
                 x["message"] = sgxgen.pem_body(newleaf)
+    elif k == 9:
+        # the file itself carries an element named like the root of trust (the chain's own root, self-signed);
+        # half of the time the verifier trusts another root: nothing inside the file may stand in for it
+        c["elements"].append({"name": "sgx_root", "type": "x509_pem", "message": sgxgen.pem_body(m.certs[0]),
+                              "signed_by": "sgx_root"})
+        if rng.random() < 0.7:
+            root = sgxgen.Material(rng, depth=1).certs[0]
     return c, root
 
 
@@ -146,7 +154,7 @@ def gen(tier, rng):
         root = m.certs[0]
         kind = "genuine" if validity is None else "validity-" + validity[1]
         if rng.random() < 0.55:
-            cert, root = corrupt(rng, m, cert, k=i % 9)
+            cert, root = corrupt(rng, m, cert, k=i % 10)
             kind = "corrupted"
         from cryptography.hazmat.primitives import serialization
         # the verification's clock: now, far in the future (everything expired), in the past (nothing valid yet)
